@@ -262,19 +262,29 @@ bool TaskScheduler::TryRunTask( uint32_t threadNum, uint32_t& hintPipeToCheck_io
             SubTaskSet taskToRun = SplitTask( subTask, subTask.pTask->m_RangeToRun );
             SplitAndAddTask( threadNum, subTask, subTask.pTask->m_RangeToRun );
             taskToRun.pTask->ExecuteRange( taskToRun.partition, threadNum );
-            AtomicAdd( &taskToRun.pTask->m_RunningCount, -1 );
+            CompleteRange( taskToRun.pTask );
         }
         else
         {
 
             // the task has already been divided up by AddTaskSetToPipe, so just run it
             subTask.pTask->ExecuteRange( subTask.partition, threadNum );
-            AtomicAdd( &subTask.pTask->m_RunningCount, -1 );
+            CompleteRange( subTask.pTask );
         }
     }
 
     return bHaveTask;
 
+}
+
+void TaskScheduler::CompleteRange( ITaskSet* pTask_ )
+{
+    // read the flag first: once the count is decremented a waiter may release the task
+    bool bDelete = pTask_->m_DeleteOnCompletion;
+    if( 1 == AtomicAdd( &pTask_->m_RunningCount, -1 ) && bDelete )
+    {
+        delete pTask_;
+    }
 }
 
 void TaskScheduler::WaitForTasks( uint32_t threadNum )
@@ -339,7 +349,7 @@ void TaskScheduler::SplitAndAddTask( uint32_t threadNum_, SubTaskSet subTask_, u
                 subTask_.partition.start = taskToAdd.partition.end;
             }
             taskToAdd.pTask->ExecuteRange( taskToAdd.partition, threadNum_ );
-            AtomicAdd( &subTask_.pTask->m_RunningCount, -1 );
+            CompleteRange( subTask_.pTask );
         }
         else
         {
